@@ -196,7 +196,8 @@ func produceRanges(repo string) ([]byte, []string) {
 	b.WriteString("          return-first = the loop body starts with a return, other = anything else. *)\n")
 	b.WriteString("From Coq Require Import String List ZArith.\nImport ListNotations.\nLocal Open Scope string_scope.\n\n")
 	fmt.Fprintf(&b, "Definition vm_map_scan_complete : bool := %v.\n", len(errs) == 0)
-	fmt.Fprintf(&b, "Definition vm_map_scan_files : nat := %d.\n\n", res.Files)
+	fmt.Fprintf(&b, "(* files scanned: see the check's evidence; not a definition, so that adding a file without a map range\n   does not rebuild the proofs *)\n\n")
+	_ = res
 	b.WriteString("Definition vm_map_ranges : list (string * string * string * string * string) := [\n")
 	for i, s := range sites {
 		sep := ";"
